@@ -23,6 +23,7 @@ type Ctx struct {
 	stackF           *stackFacts
 	includeValidator *types.Func
 	pureNN           map[*ssa.Function]int
+	dispatch         map[string]*types.Func
 }
 
 type propFunc func(c *Ctx)
